@@ -115,6 +115,10 @@ func (fe functionExpr) CompletionAtPos(ctx context.Context, pos hcl.Pos) []lang.
 			}
 			prefix := eType.Name[0:prefixLen]
 			editRange := eType.Range()
+			if editRange.End.Byte < editRange.Start.Byte {
+				// the parser gives an unterminated call no end
+				editRange = eType.NameRange
+			}
 			return fe.matchingFunctions(prefix, editRange)
 		}
 
